@@ -40,6 +40,8 @@ Definition plain_string_char (c : ascii) : bool :=
 Inductive lexres : Type := LOk (ts : list tok) | LErr | LUnm.
 Definition lcons (t : tok) (r : lexres) : lexres := match r with LOk ts => LOk (t :: ts) | x => x end.
 
+Definition head_is (p : ascii -> bool) (s : string) : bool := match s with String c _ => p c | EmptyString => false end.
+
 (** skip ignored text: white space and // comments *)
 Fixpoint skip_ignored (fuel : nat) (s : string) : string :=
   match fuel with
@@ -48,15 +50,12 @@ Fixpoint skip_ignored (fuel : nat) (s : string) : string :=
       match s with
       | String c r =>
           if is_ws c then skip_ignored f r
-          else match s with
-               | String "/"%char (String "/"%char r2) => skip_ignored f (skip_line r2)
-               | _ => s
-               end
+          else if (ascii_Z c =? 47) && head_is (fun x => ascii_Z x =? 47) r then skip_ignored f (skip_line r)
+          else s
       | EmptyString => s
       end
   end.
 
-Definition head_is (p : ascii -> bool) (s : string) : bool := match s with String c _ => p c | EmptyString => false end.
 
 (** [operand]: the previous token ends an operand, so + and - are operators here *)
 Fixpoint lex (fuel : nat) (operand : bool) (s : string) : lexres :=
